@@ -449,11 +449,14 @@ def trace_address_balance(ctx, rep, rule):
             continue
         stmts = list(iter_stmts(f.body))
         pushes = [st for st in stmts if _addr_call(st, "append")]
-        if not pushes or id(f.node) in done:
+        pops = [st for st in stmts if _addr_call(st, "pop")]
+        if not (pushes or pops) or id(f.node) in done:
             continue
         done.add(id(f.node))
         seen += 1
-        pops = [st for st in stmts if _addr_call(st, "pop")]
+        if not pushes:
+            rep.violation(rule, construct_of(f, "address-stack"), f"`{ast.unparse(pops[0])[:60]}`: the function pops the address but never pushes onto it: the component of the enclosing block is removed and every statement visited below is looked for at the wrong address; subcircuit discovery records wrong start/end addresses and the trace walk (emulation, readout assignment) follows them", f"{f.path}:{pops[0].lineno}")
+            continue
         cfg = CFG(f.node.body)
         pn = [cfg.node(st) for st in pushes]
         qn = [cfg.node(st) for st in pops]
